@@ -1,6 +1,7 @@
 //! The checks, one module per property.
 use crate::framework::CheckDef;
 
+pub mod c05;
 pub mod c06;
 pub mod c07;
 pub mod c09;
@@ -14,6 +15,7 @@ pub fn register(v: &mut Vec<CheckDef>) {
     v.push(dsio::def_c01());
     v.push(dsio::def_c02());
     v.push(dsio::def_c04());
+    v.push(c05::def());
     v.push(c06::def());
     v.push(c07::def());
     v.push(c09::def());
